@@ -1,4 +1,378 @@
-import Sigc.Basic
-/-! property theorems for C05 (stub, replaced by the real statements) -/
+import Sigc.Types
+import Sigc.TypesLemmas
+import Sigc.Props.C20Types
+/-!
+  Property C05 — *type-unsafe connections are rejected at compile time; well-typed ones compile.*
+
+  "A functor can be converted to a slot, or connected to a signal, only if it can be called with the signal's
+  parameter types as the library passes them and its result can be returned as the signal's result type.  A
+  mismatch in arity, a parameter that is not convertible, a non-const reference parameter that would bind to a
+  value or const argument, a non-const method on a const object, or an incompatible result type is a compile
+  error; a functor that is callable with standard implicit conversions is accepted."
+
+  The theorems are about the executable model `Sigc/Types.lean` (`accepts`, `acceptsRoute`, `binds`, `retOk`,
+  `passed`, `chain`), for **all** arities (list induction), all base types and shapes of the universe, all functor
+  kinds and every adaptor hop where stated.  The model is tied to `/repo` by the compile-probe correspondence of
+  `checks/props/c05.py` (oracle: g++ and clang++).
+-/
 namespace Sigc.C05
+open Sigc.Types
+
+/-! ## What the library passes -/
+
+/-- **C05.passed_as** — for every declared signature parameter, the expression that `std::invoke` hands to the
+    stored functor: `T ↦ const lvalue T`, `T& ↦ lvalue T`, `const T& ↦ const lvalue T`, `T&& ↦ xvalue T`
+    (`take_t<T&&> = T&&`, and every hop uses `std::forward<T&&>`, so the functor sees an xvalue, not an lvalue). -/
+theorem passed_as (a : Param) :
+    passed a = match a.shape with
+      | .val => ⟨a.base, true, .lvalue⟩
+      | .lref => ⟨a.base, false, .lvalue⟩
+      | .cref => ⟨a.base, true, .lvalue⟩
+      | .rref => ⟨a.base, false, .xvalue⟩ := by
+  obtain ⟨b, sh⟩ := a
+  cases sh <;> rfl
+
+example : passed ⟨.clsA, .val⟩ = ⟨.clsA, true, .lvalue⟩ ∧ passed ⟨.long, .rref⟩ = ⟨.long, false, .xvalue⟩ := by
+  decide
+
+/-- **C05.chain_passed** — the plumbing `slot::operator()` → `call_it` → explicit `operator()<take_t<A>>` (reference
+    collapsing) → `std::invoke` never fails on its own and is independent of the caller's expression: whatever
+    admissible argument `e0` the caller gives, all three internal hops bind and the functor is handed `passed a`. -/
+theorem chain_passed (a : Param) (e0 : ExprTy) (h : binds (take a) e0 = true) :
+    chain a e0 = some (passed a) := chain_eq a e0 h
+
+example : chain ⟨.int, .val⟩ ⟨.long, false, .prvalue⟩ = some ⟨.int, true, .lvalue⟩ := by decide
+
+/-! ## Acceptance -/
+
+/-- **C05.accepts_iff** (all arities) — a functor is accepted for a signature exactly when the arities agree, every
+    functor parameter binds the expression the library passes at that position, the functor object can be formed
+    (`mem_fun`: const object ⇒ const method) and the result can be returned as the signature's result. -/
+theorem accepts_iff (sig : Sig) (fn : Fn) :
+    accepts sig .none fn = true ↔
+      fn.params.length = sig.params.length ∧
+      (∀ (i : Nat) (h1 : i < fn.params.length) (h2 : i < sig.params.length),
+          binds fn.params[i] (passed sig.params[i]) = true) ∧
+      fn.kind.objOk = true ∧ retOk fn.ret sig.ret = true := by
+  simp only [accepts, adaptArgs, invokeOk_eq, Bool.and_eq_true, bindsAll_iff, List.length_map]
+  constructor
+  · rintro ⟨⟨ho, hl, hb⟩, hr⟩
+    refine ⟨hl, ?_, ho, hr⟩
+    intro i h1 h2
+    have := hb i h1 (by simpa using h2)
+    simpa using this
+  · rintro ⟨hl, hb, ho, hr⟩
+    refine ⟨⟨ho, hl, ?_⟩, hr⟩
+    intro i h1 h2
+    have := hb i h1 (by simpa using h2)
+    simpa using this
+
+/-- non-vacuity: a binary signature `int(int, A&)` and a const method `long m(const long&, A&) const` on a const
+    object — conversions at both the parameter and the result; accepted. -/
+example : accepts ⟨[⟨.int, .val⟩, ⟨.clsA, .lref⟩], some ⟨.long, .val⟩⟩ .none
+    ⟨.memFun true .const, [⟨.long, .cref⟩, ⟨.clsA, .lref⟩], some ⟨.int, .val⟩⟩ = true := by decide
+
+/-- the two routes `slot<Sig> s = f;` and `signal<Sig>::connect(f)` decide alike -/
+theorem routes_agree (sig : Sig) (ad : Adaptor) (fn : Fn) :
+    acceptsRoute .slotInit sig ad fn = acceptsRoute .connect sig ad fn := rfl
+
+/-- **wrong arity ⇒ rejected** (any kind, any parameter types) -/
+theorem wrong_arity_rejected (sig : Sig) (fn : Fn) (h : fn.params.length ≠ sig.params.length) :
+    accepts sig .none fn = false := by
+  cases hacc : accepts sig .none fn
+  · rfl
+  · exact absurd ((accepts_iff sig fn).1 hacc).1 h
+
+example : accepts ⟨[⟨.int, .val⟩], none⟩ .none ⟨.lambda, [⟨.int, .val⟩, ⟨.int, .val⟩], none⟩ = false := by decide
+
+/-- **non-convertible parameter ⇒ rejected**: if at some position the signature's object type has no standard
+    conversion to the functor parameter's object type, no declared shape on either side helps. -/
+theorem nonconvertible_param_rejected (sig : Sig) (fn : Fn) (i : Nat)
+    (h1 : i < fn.params.length) (h2 : i < sig.params.length)
+    (h : conv sig.params[i].base fn.params[i].base = false) :
+    accepts sig .none fn = false := by
+  cases hacc : accepts sig .none fn
+  · rfl
+  · have hb := ((accepts_iff sig fn).1 hacc).2.1 i h1 h2
+    have hc := conv_of_binds hb
+    rw [passed_base, h] at hc
+    cases hc
+
+example : accepts ⟨[⟨.ptrA, .val⟩], none⟩ .none ⟨.freeFn, [⟨.int, .val⟩], none⟩ = false := by decide
+
+/-- **non-const reference from a value or const argument ⇒ rejected**: a `T&` functor parameter facing a signature
+    parameter declared `U`, `const U&` (passed as const lvalue) or `U&&` (passed as xvalue). -/
+theorem nonconst_ref_from_value_or_const_rejected (sig : Sig) (fn : Fn) (i : Nat)
+    (h1 : i < fn.params.length) (h2 : i < sig.params.length)
+    (hf : fn.params[i].shape = .lref) (hs : sig.params[i].shape ≠ .lref) :
+    accepts sig .none fn = false := by
+  cases hacc : accepts sig .none fn
+  · rfl
+  · have hb := ((accepts_iff sig fn).1 hacc).2.1 i h1 h2
+    exact absurd (lref_binds_passed hf hb).1 hs
+
+example : accepts ⟨[⟨.int, .val⟩], none⟩ .none ⟨.lambda, [⟨.int, .lref⟩], none⟩ = false := by decide
+example : accepts ⟨[⟨.int, .lref⟩], none⟩ .none ⟨.lambda, [⟨.int, .lref⟩], none⟩ = true := by decide
+
+/-- a `T&` functor parameter is accepted only for a signature parameter `U&` of the same or a derived class type -/
+theorem nonconst_ref_needs_same_object (sig : Sig) (fn : Fn) (i : Nat)
+    (h1 : i < fn.params.length) (h2 : i < sig.params.length)
+    (hf : fn.params[i].shape = .lref) (hacc : accepts sig .none fn = true) :
+    sig.params[i].shape = .lref ∧ sameOrBaseOf fn.params[i].base sig.params[i].base = true := by
+  exact lref_binds_passed hf (((accepts_iff sig fn).1 hacc).2.1 i h1 h2)
+
+/-- **non-const method on a const object ⇒ rejected**, on every route and under every adaptor hop -/
+theorem nonconst_method_on_const_object_rejected (r : Route) (sig : Sig) (ad : Adaptor) (ps : List Param)
+    (ret : Ret) (mq : MQ) (h : mq.isConst = false) :
+    acceptsRoute r sig ad ⟨.memFun true mq, ps, ret⟩ = false := by
+  have hacc : accepts sig ad ⟨.memFun true mq, ps, ret⟩ = false := by
+    simp only [accepts]
+    cases adaptArgs ad ⟨.memFun true mq, ps, ret⟩ sig.params with
+    | none => rfl
+    | some args => simp [invokeOk_eq, Kind.objOk, h]
+  have hnone : accepts sig .none ⟨.memFun true mq, ps, ret⟩ = false := by
+    simp [accepts, adaptArgs, invokeOk_eq, Kind.objOk, h]
+  cases r <;> simp [acceptsRoute, hacc, hnone]
+
+example : accepts ⟨[], none⟩ .none ⟨.memFun true .none, [], none⟩ = false
+    ∧ accepts ⟨[], none⟩ .none ⟨.memFun true .const, [], none⟩ = true
+    ∧ accepts ⟨[], none⟩ .none ⟨.memFun false .none, [], none⟩ = true := by decide
+
+/-- **incompatible result ⇒ rejected**, under every adaptor hop -/
+theorem incompatible_result_rejected (sig : Sig) (ad : Adaptor) (fn : Fn)
+    (h : retOk fn.ret sig.ret = false) : accepts sig ad fn = false := by
+  simp only [accepts]
+  cases adaptArgs ad fn sig.params with
+  | none => rfl
+  | some args => simp [h]
+
+/-- what "incompatible" means: a `void` functor for a value signature, a value functor for a `void` signature
+    (`return f(...)` in `void call_it`), or a result whose object type does not convert -/
+theorem retOk_false_cases (fr sr : Ret) :
+    (sr ≠ none ∧ fr = none) ∨ (sr = none ∧ fr ≠ none) ∨
+      (∃ s f, sr = some s ∧ fr = some f ∧ conv f.base s.base = false) → retOk fr sr = false := by
+  rintro (⟨hs, hf⟩ | ⟨hs, hf⟩ | ⟨s, f, hs, hf, hc⟩)
+  · subst hf
+    cases sr with
+    | none => exact absurd rfl hs
+    | some s => rfl
+  · subst hs
+    cases fr with
+    | none => exact absurd rfl hf
+    | some f => rfl
+  · subst hs hf
+    cases hb : retOk (some f) (some s)
+    · rfl
+    · have := conv_of_binds (p := s) (e := retExpr f) hb
+      rw [retExpr_base, hc] at this
+      cases this
+
+example : accepts ⟨[⟨.int, .val⟩], some ⟨.ptrB, .val⟩⟩ .none ⟨.lambda, [⟨.int, .val⟩], some ⟨.ptrA, .val⟩⟩ = false := by
+  decide
+example : accepts ⟨[⟨.int, .val⟩], none⟩ .none ⟨.freeFn, [⟨.int, .val⟩], some ⟨.int, .val⟩⟩ = false := by decide
+
+/-- **callable with standard implicit conversions ⇒ accepted**: equal arity; every functor parameter is taken by
+    value or by const reference and the signature's object type converts to it (however the signature declares its
+    parameter: `U`, `U&`, `const U&`, `U&&`); the functor object exists; the result is `void` for `void`, or converts
+    to the signature's value result. -/
+theorem convertible_accepted (sig : Sig) (fn : Fn)
+    (hl : fn.params.length = sig.params.length)
+    (hp : ∀ (i : Nat) (h1 : i < fn.params.length) (h2 : i < sig.params.length),
+        (fn.params[i].shape = .val ∨ fn.params[i].shape = .cref) ∧
+          conv sig.params[i].base fn.params[i].base = true)
+    (ho : fn.kind.objOk = true)
+    (hr : (sig.ret = none ∧ fn.ret = none) ∨
+        (∃ b f, sig.ret = some ⟨b, .val⟩ ∧ fn.ret = some f ∧ conv f.base b = true)) :
+    accepts sig .none fn = true := by
+  refine (accepts_iff sig fn).2 ⟨hl, ?_, ho, ?_⟩
+  · intro i h1 h2
+    obtain ⟨hs, hc⟩ := hp i h1 h2
+    rw [val_binds _ _ hs]
+    rw [passed_base]
+    exact hc
+  · rcases hr with ⟨hs, hf⟩ | ⟨b, f, hs, hf, hc⟩
+    · rw [hs, hf]; rfl
+    · rw [hs, hf]
+      simp only [retOk, binds, retExpr_base]
+      exact hc
+
+example : accepts ⟨[⟨.int, .rref⟩, ⟨.clsB, .lref⟩, ⟨.ptrB, .cref⟩], some ⟨.double, .val⟩⟩ .none
+    ⟨.fobj, [⟨.double, .val⟩, ⟨.clsA, .cref⟩, ⟨.cptrA, .val⟩], some ⟨.bool, .cref⟩⟩ = true := by decide
+
+/-- reference-preserving acceptance: a functor whose declared signature is literally the signal's is accepted
+    (every shape, every arity) — in particular `T&` and `T&&` parameters are reachable -/
+theorem identical_signature_accepted (ps : List Param) (r : Ret) (k : Kind) (ho : k.objOk = true) :
+    accepts ⟨ps, r⟩ .none ⟨k, ps, r⟩ = true := by
+  simp [accepts, adaptArgs, invokeOk_eq, ho, bindsAll_self, retOk_self]
+
+/-! ## `signal_connect` -/
+
+/-- `signal_connect(sig, f)` is accepted exactly on identical signatures (and the existing overloads): the typed call
+    inside `call_it` can then never fail, so exactness is the whole condition. -/
+theorem signal_connect_iff (sig : Sig) (ad : Adaptor) (fn : Fn) :
+    acceptsRoute .signalConnect sig ad fn = true ↔ ad = .none ∧ sigConnExact sig fn = true := by
+  simp only [acceptsRoute, Bool.and_eq_true, beq_iff_eq]
+  constructor
+  · rintro ⟨⟨h1, h2⟩, _⟩
+    exact ⟨h1, h2⟩
+  · rintro ⟨h1, h2⟩
+    refine ⟨⟨h1, h2⟩, ?_⟩
+    obtain ⟨sp, sr⟩ := sig
+    obtain ⟨k, fp, fr⟩ := fn
+    simp only [sigConnExact, Bool.and_eq_true, beq_iff_eq] at h2
+    obtain ⟨⟨hk, hp⟩, hr⟩ := h2
+    subst hp hr
+    apply identical_signature_accepted
+    cases k with
+    | memFun oc mq =>
+      cases mq <;> cases oc <;> first | rfl | (exfalso; revert hk; decide)
+    | _ => rfl
+
+example : acceptsRoute .signalConnect ⟨[⟨.int, .val⟩], none⟩ .none ⟨.freeFn, [⟨.long, .val⟩], none⟩ = false
+    ∧ acceptsRoute .signalConnect ⟨[⟨.int, .val⟩], none⟩ .none ⟨.freeFn, [⟨.int, .val⟩], none⟩ = true := by decide
+
+/-! ## One adaptor hop -/
+
+/-- `hide<I>(f)` under a signature: every forwarded element must survive the tuple rebuild (no rvalue reference) and
+    is seen by `f` as the stored lvalue; the hidden element may be anything when it is first or last, but is rebuilt
+    as well (hence must not be an rvalue reference) in a middle position; then `f` is judged as above. -/
+theorem accepts_hide_iff (sig : Sig) (i : Nat) (fn : Fn) (hi : i < sig.params.length) :
+    accepts sig (.hide (some i)) fn = true ↔
+      (hiddenRebuilt i sig.params.length = true → sig.params[i].shape ≠ .rref) ∧
+      (∀ a ∈ sig.params.take i ++ sig.params.drop (i + 1), a.shape ≠ .rref) ∧
+      bindsAll fn.params ((sig.params.take i ++ sig.params.drop (i + 1)).map stored) = true ∧
+      fn.kind.objOk = true ∧ retOk fn.ret sig.ret = true := by
+  have hn : (sig.params.length == 0) = false := by
+    cases h : sig.params.length with
+    | zero => omega
+    | succ n => rfl
+  have hge : ¬ (i ≥ sig.params.length) := by omega
+  have hget : sig.params[i]? = some sig.params[i] := List.getElem?_eq_getElem hi
+  simp only [accepts, adaptArgs, hn, Option.getD_some, hge, if_false, Bool.false_eq_true, hget, Option.map_some]
+  by_cases hbad : (hiddenRebuilt i sig.params.length && sig.params[i].shape == .rref) = true
+  · simp only [hbad, if_true]
+    simp only [Bool.and_eq_true, beq_iff_eq] at hbad
+    constructor
+    · intro hf
+      cases hf
+    · rintro ⟨h1, _⟩
+      exact absurd hbad.2 (h1 hbad.1)
+  · simp only [hbad, if_false, Bool.false_eq_true]
+    have hgood : hiddenRebuilt i sig.params.length = true → sig.params[i].shape ≠ .rref := by
+      intro h1 h2
+      apply hbad
+      simp [h1, h2]
+    cases h : tupleElems (sig.params.take i ++ sig.params.drop (i + 1)) with
+    | none =>
+      have : ¬ ∀ a ∈ sig.params.take i ++ sig.params.drop (i + 1), a.shape ≠ .rref := fun hall => by
+        have := (tupleElems_iff _ _).2 ⟨hall, rfl⟩
+        rw [h] at this
+        cases this
+      constructor
+      · intro hf
+        cases hf
+      · rintro ⟨_, hall, _⟩
+        exact absurd hall this
+    | some es =>
+      obtain ⟨hall, hes⟩ := (tupleElems_iff _ _).1 h
+      subst hes
+      simp only [invokeOk_eq, Bool.and_eq_true]
+      constructor
+      · rintro ⟨⟨ho, hb⟩, hr⟩
+        exact ⟨hgood, hall, hb, ho, hr⟩
+      · rintro ⟨_, _, hb, ho, hr⟩
+        exact ⟨⟨ho, hb⟩, hr⟩
+
+example : accepts ⟨[⟨.int, .lref⟩, ⟨.clsA, .rref⟩], none⟩ (.hide (some 1)) ⟨.lambda, [⟨.int, .lref⟩], none⟩ = true
+    ∧ accepts ⟨[⟨.clsA, .rref⟩, ⟨.int, .val⟩], none⟩ (.hide (some 1)) ⟨.lambda, [⟨.clsA, .rref⟩], none⟩ = false
+    ∧ accepts ⟨[⟨.int, .val⟩, ⟨.clsA, .rref⟩, ⟨.int, .val⟩], none⟩ (.hide (some 1))
+        ⟨.lambda, [⟨.int, .val⟩, ⟨.int, .val⟩], none⟩ = false := by
+  decide
+
+/-- `bind(f, b...)` (append): no signature element may be an rvalue reference; `f` sees the stored lvalues followed by
+    modifiable lvalues of the bound types. -/
+theorem accepts_bind_last_iff (sig : Sig) (bound : List Base) (fn : Fn) :
+    accepts sig (.bind none bound) fn = true ↔
+      (∀ a ∈ sig.params, a.shape ≠ .rref) ∧
+      bindsAll fn.params (sig.params.map stored ++ bound.map boundExpr) = true ∧
+      fn.kind.objOk = true ∧ retOk fn.ret sig.ret = true := by
+  simp only [accepts, adaptArgs, Option.getD_none, Nat.lt_irrefl, gt_iff_lt, if_false]
+  cases h : tupleElems sig.params with
+  | none =>
+    have : ¬ ∀ a ∈ sig.params, a.shape ≠ .rref := fun hall => by
+      have := (tupleElems_iff _ _).2 ⟨hall, rfl⟩
+      rw [h] at this
+      cases this
+    constructor
+    · intro hf
+      cases hf
+    · rintro ⟨hall, _⟩
+      exact absurd hall this
+  | some es =>
+    obtain ⟨hall, hes⟩ := (tupleElems_iff _ _).1 h
+    subst hes
+    have hlen : (sig.params.map stored).length = sig.params.length := by simp
+    simp only [Option.map_some, invokeOk_eq, Bool.and_eq_true, ← hlen, List.take_length, List.drop_length,
+      List.append_nil]
+    constructor
+    · rintro ⟨⟨ho, hb⟩, hr⟩
+      exact ⟨hall, hb, ho, hr⟩
+    · rintro ⟨_, hb, ho, hr⟩
+      exact ⟨⟨ho, hb⟩, hr⟩
+
+example : accepts ⟨[⟨.int, .lref⟩], none⟩ (.bind none [.long]) ⟨.freeFn, [⟨.int, .lref⟩, ⟨.long, .lref⟩], none⟩ = true
+    ∧ accepts ⟨[⟨.int, .lref⟩], none⟩ (.bind none [.long]) ⟨.freeFn, [⟨.int, .lref⟩, ⟨.long, .rref⟩], none⟩ = false := by
+  decide
+
+/-- `retype(f)` (f a sigc functor with declared parameter types): accepted iff the arities agree, every passed
+    expression can be `static_cast` to the declared parameter type, and the result converts — binding the cast
+    results can then not fail. -/
+theorem accepts_retype_iff (sig : Sig) (fn : Fn) (hw : fn.kind.wrapped = true) :
+    accepts sig .retype fn = true ↔
+      fn.params.length = sig.params.length ∧
+      (∀ (i : Nat) (h1 : i < fn.params.length) (h2 : i < sig.params.length),
+          castOk fn.params[i] (passed sig.params[i]) = true) ∧
+      fn.kind.objOk = true ∧ retOk fn.ret sig.ret = true := by
+  simp only [accepts, adaptArgs, hw, if_true]
+  cases h : castAll fn.params (sig.params.map passed) with
+  | none =>
+    simp only [Bool.false_eq_true, false_iff, not_and]
+    intro hl hall
+    have := (castAll_iff fn.params (sig.params.map passed) _).2
+      ⟨by simpa using hl, fun i h1 h2 => by
+        have := hall i h1 (by simpa using h2)
+        simpa using this, rfl⟩
+    rw [h] at this
+    cases this
+  | some rs =>
+    obtain ⟨hl, hall, hrs⟩ := (castAll_iff _ _ _).1 h
+    subst hrs
+    simp only [invokeOk_eq, bindsAll_castExpr, Bool.and_true, Bool.and_eq_true]
+    constructor
+    · rintro ⟨ho, hr⟩
+      refine ⟨by simpa using hl, ?_, ho, hr⟩
+      intro i h1 h2
+      have := hall i h1 (by simpa using h2)
+      simpa using this
+    · rintro ⟨_, _, ho, hr⟩
+      exact ⟨ho, hr⟩
+
+example : accepts ⟨[⟨.clsA, .lref⟩], none⟩ .retype ⟨.ptrFun, [⟨.clsB, .lref⟩], none⟩ = true
+    ∧ accepts ⟨[⟨.clsA, .val⟩], none⟩ .retype ⟨.ptrFun, [⟨.clsB, .lref⟩], none⟩ = false
+    ∧ accepts ⟨[⟨.clsA, .lref⟩], none⟩ .none ⟨.ptrFun, [⟨.clsB, .lref⟩], none⟩ = false := by decide
+
+/-! ## The erased call (anchor "function_pointer_cast erases and restores the exact call_it signature") -/
+
+/-- **C05.erased_call_type_exact** — all the type checking above happens in `call_it`'s body under the function type
+    `callItType`; every call site restores exactly that type before calling (C20.call_through_original_type), and the
+    arguments it passes initialise that type's parameters (`C20.call_site_args_ok`). -/
+theorem erased_call_type_exact (site : CallSite) (r : Ret) (as : List Param)
+    (h : siteApplies site r = true) :
+    castBackTo site r as = callItType r as ∧
+      (∀ a ∈ as, a.shape ≠ .rref → siteOk site a = true) :=
+  ⟨Sigc.C20.call_through_original_type site r as h,
+   fun a _ ha => Sigc.C20.call_site_args_ok site a (Or.inl ha)⟩
+
+example : siteApplies .slotCall (some ⟨.int, .val⟩) = true := by decide
+
 end Sigc.C05
